@@ -155,4 +155,29 @@ def applyTo (idOf : Nat → Id) (app : Nat → Val) (s : Store) (inputs : List N
   | none => none
   | some sel => some (writeAll idOf s (schedule (sel.map (wrapped app)) order))
 
+/-! ### (auditor) what "already in the store" means depends on the store class
+
+`input_id in self.data_store` is `any(m.unique_id == identifier for m in self)` over ALL members.
+A `DataStoreDirectory` lists a not-completed member as `not_completed/<id>.json`, which never equals
+the identifier, so only completed records count (`hasDone`, used by `select` above and by every
+theorem).  A `DataStoreSqlite` lists a not-completed member under the bare identifier, so there a
+stored NOT-COMPLETED record also makes `_apply_to` skip the input (`hasAny`): a failed input is not
+retried on resume, and it does not take part in the duplicate-identifier check. -/
+
+def hasAny (s : Store) (i : Id) : Bool := !(entries s i).isEmpty
+
+/-- `select` with the membership test as a parameter (`hasDone s` = directory store, `hasAny s` = SQLite store) -/
+def selectBy (done : Id → Bool) (idOf : Nat → Id) : List Nat → List (Id × Nat) → Option (List (Id × Nat))
+  | [], acc => some acc
+  | m :: ms, acc =>
+    if acc.any (fun p => p.1 == idOf m) then none
+    else if done (idOf m) then selectBy done idOf ms acc
+    else selectBy done idOf ms (acc ++ [(idOf m, m)])
+
+def applyToBy (done : Store → Id → Bool) (idOf : Nat → Id) (app : Nat → Val) (s : Store) (inputs : List Nat)
+    (order : List Nat) : Option Store :=
+  match selectBy (done s) idOf inputs [] with
+  | none => none
+  | some sel => some (writeAll idOf s (schedule (sel.map (wrapped app)) order))
+
 end CogentModel.Composable
